@@ -38,6 +38,19 @@ def local_not_systolic(case, of):
     return None
 
 
+def built_outside_smaller_pool(case, of):
+    """`build` sizes the per-thread buffers `local_next_must_be_checked` with rayon::current_num_threads() of the
+    pool it is called in; `parallel_task` indexes them with the broadcast index of the pool that runs.  The CLI
+    builds outside its pool, so `webgraph dist hyperball -j N` with N above the number of cores panics."""
+    if all(f.startswith("status:FAIL(panic:index_out_of_bounds") for f in of) and case.get("bo") == "1" \
+            and int(case.get("t", "0")) > int(case.get("gp", "1000")):
+        return ("HyperBall built outside the pool that runs it (as cli/src/dist/hyperball/mod.rs does) panics with "
+                "index out of bounds when that pool has more threads than the pool current at build time "
+                "(algo/src/distances/hyperball.rs build: local_next_must_be_checked sized by "
+                "rayon::current_num_threads(); parallel_task: indexed by broadcast_context.index())")
+    return None
+
+
 def nontrivial(case):
     if int(case.get("n", "0")) < 2 or int(case.get("arcs", "0")) < 1 or case.get("status") != "ok":
         return None
@@ -57,19 +70,23 @@ def run(ctx):
     rs.append(codec.run_simple("C19", ctx, "hball", ["--count", "12" if quick else "150", "--maxn", "90", "--mode", "acc"],
                                ORACLE, CORR, nontrivial=nontrivial, seed_offset=2, name="hball_acc",
                                env_extra={"HBALL_CASES": "4"}))
+    # a machine with 3 cores (global pool of 3 threads) running pools of up to 16 threads built as the CLI does
+    rs.append(codec.run_simple("C19", ctx, "hball", ["--count", "15" if quick else "150", "--maxn", "60", "--mode", "seq"],
+                               ORACLE, CORR, nontrivial=nontrivial, seed_offset=3, name="hball_cli",
+                               env_extra={"HBALL_CASES": "5", "HBALL_BO_ALWAYS": "1", "RAYON_NUM_THREADS": "3"}))
     r = codec.merge(rs)
     # distribution: what the cases exercised
     import os, collections, vlib
     dist = collections.Counter()
-    for name in ("hball_mix", "hball_large", "hball_acc"):
+    for name in ("hball_mix", "hball_large", "hball_acc", "hball_cli"):
         path = os.path.join(vlib.RUNS, "C19_%s_%s.cases" % (name, ctx["tier"]))
         order, cases, _ = vlib.read_cases(path)
         for cidx in order:
             c = cases[cidx]
             st = c.get("status", "?")
             if st != "ok":
-                dist["refused" if st.startswith("refused") or st.startswith("panic") else "status=" + st[:20]] += 1
-                if st.startswith("refused") or st.startswith("panic"):
+                dist["refused" if st.startswith("refused") else "status=" + st[:25]] += 1
+                if st.startswith("refused"):
                     r["refused"] += 1
                 continue
             for k in ("kind", "store", "tr", "api", "cent", "bo", "fam"):
@@ -90,6 +107,6 @@ def run(ctx):
                  "granularity (nodes/arcs), transpose, in-memory/external store, high/low-level builder, centralities "
                  "on/off, build inside/outside the pool; non-trivial = >= 2 nodes, >= 1 arc, not refused; distinct = "
                  "different (group, configuration)")
-    violations, known = codec.verdict("C19", r, known_matchers=[local_not_systolic])
+    violations, known = codec.verdict("C19", r, known_matchers=[local_not_systolic, built_outside_smaller_pool])
     r.update({"violations": violations, "known": known})
     return r
